@@ -60,7 +60,7 @@ func probeAllPairs(c *Cluster, tag string) (failed []string, sent int) {
 
 func c17Rotation(t *testing.T, run *Run) {
 	kOld, kNew := c17keys["k16a"], c17keys["k32"]
-	cases := run.Pick(6, 300)
+	cases := run.Pick(12, 3000)
 	for ci := 0; ci < cases; ci++ {
 		if !run.Mine(ci) {
 			continue
